@@ -53,23 +53,17 @@ func makeURLKey(u *url.URL) string {
 	if u.Opaque != "" {
 		return u.Opaque
 	}
-	// RFC 3986 §6.2.2.3: Path normalization (dot-segment removal) is handled by
-	// [url.URL.ResolveReference], which uses the RFC 3986 §5.2.4 algorithm.
-	base, _ := url.Parse(u.Scheme + "://" + u.Host)
-	normalized := base.ResolveReference(u)
 	// Percent-encoded unreserved characters are decoded before dot-segments are
 	// removed, so that "%2E%2E" is treated like "..".
-	escaped := normalizePercentEncoding(u.EscapedPath())
-	if decoded, err := url.PathUnescape(escaped); err == nil {
-		ref := *u
-		ref.Path, ref.RawPath = decoded, escaped
-		normalized = base.ResolveReference(&ref)
-	}
+	// RFC 3986 §6.2.2.3: dot-segments are removed with the §5.2.4 algorithm.
+	// ([url.URL.ResolveReference] deviates from it: "/..//x" becomes "/x"
+	// instead of "//x", which would give two different resources one key.)
+	path := removeDotSegments(normalizePercentEncoding(u.EscapedPath()))
 
 	// RFC 3986 §6.2.2.1: Scheme is lowercased (already done by [url.Parse]).
-	scheme := normalized.Scheme
+	scheme := u.Scheme
 
-	host, port := splitHostPort(normalized.Host)
+	host, port := splitHostPort(u.Host)
 	defaultP := defaultPort(scheme)
 	if port == "" {
 		port = defaultP
@@ -88,7 +82,6 @@ func makeURLKey(u *url.URL) string {
 
 	// RFC 3986 §6.2.3: An empty path for http/https is normalized to "/".
 	// Also see https://datatracker.ietf.org/doc/html/rfc7230#section-2.7.3
-	path := normalized.EscapedPath()
 	if path == "" && (scheme == "http" || scheme == "https") {
 		path = "/"
 	}
@@ -98,13 +91,43 @@ func makeURLKey(u *url.URL) string {
 	result := scheme + "://" + hostPort + path
 
 	// RFC 3986 §6.2.2.2: Normalize percent-encoding in query, if present.
-	if normalized.RawQuery != "" {
-		result += "?" + normalizePercentEncoding(normalized.RawQuery)
+	if u.RawQuery != "" {
+		result += "?" + normalizePercentEncoding(u.RawQuery)
 	}
 
 	// RFC 3986 §6.1 Equivalence: "fragment components (if any) should be excluded from
 	// the comparison"
 	return result
+}
+
+// removeDotSegments applies RFC 3986 §5.2.4 to a path. A path that is neither
+// empty nor absolute is treated as if it began with "/".
+func removeDotSegments(p string) string {
+	if p == "" {
+		return ""
+	}
+	p = strings.TrimPrefix(p, "/")
+	segments := strings.Split(p, "/")
+	out := make([]string, 0, len(segments))
+	for i, s := range segments {
+		last := i == len(segments)-1
+		switch s {
+		case ".":
+			if last {
+				out = append(out, "")
+			}
+		case "..":
+			if len(out) > 0 {
+				out = out[:len(out)-1]
+			}
+			if last {
+				out = append(out, "")
+			}
+		default:
+			out = append(out, s)
+		}
+	}
+	return "/" + strings.Join(out, "/")
 }
 
 // normalizePercentEncoding rewrites percent-encoded characters in a URL path or query
